@@ -281,3 +281,181 @@ def _range_job(E: int, M: int) -> Callable[[], Record]:
 
 for _E, _M in ALL_FORMATS:
     register(Job(f"c13:range[E{_E}M{_M}]", ["C13"], FM + "FPFormat.max_absolute_value", {"E": _E, "M": _M}, _range_job(_E, _M), tier="quick" if _M in (0, 2, 3, 23) else "thorough"))
+
+
+# ---------------------------------------------------------------- C14: stochastic rounding
+
+SR_QUICK = [(4, 3, 0), (4, 3, 4), (5, 2, 0), (5, 2, 1), (5, 2, 12), (2, 1, 0), (2, 1, 8), (3, 0, 0), (7, 10, 0), (7, 10, 3)]
+SR_ALL = [(E, M, s) for E in range(2, 8) for M in range(0, 11) for s in list(range(1, 13)) + [0]]
+
+
+def _rnd_threshold(d: z3.BitVecRef, D: int, s: int) -> z3.BitVecRef:
+    """rnd(d / 2^(D-s)), round half up, as a 64-bit integer (== d when s == D)"""
+    sb = D - s
+    d64 = z3.ZeroExt(32, d)
+    if sb == 0:
+        return d64
+    return z3.LShR(d64 + z3.BitVecVal(1 << (sb - 1), 64), z3.BitVecVal(sb, 64))
+
+
+def _sr_job(E: int, M: int, srbits: int, group: str) -> Callable[[], Record]:
+    """group: core | neighbour | threshold_normal | threshold_subnormal | spec_lemmas"""
+
+    def run() -> Record:
+        qual = FM + "FPFormat.quantise"
+        D = 23 - M
+        s = srbits if srbits else D
+        tag = f"C14:formats.FPFormat.quantise[E{E}M{M},sr={s}]"
+        c = fmt_consts(E, M)
+        k = c["emin_b"] - 1  # downscale = 2^k
+
+        def build(ctx: Ctx) -> Any:
+            it = mk_bit_interp(ctx, [qual])
+            fmt = mk_format(it, E, M, "stochastic", srbits)
+            x = fp32("x")
+            ctx.assume(z3.Not(z3.fpIsNaN(x)))
+            ctx.assume(z3.Not(z3.fpIsInf(x)))
+            xt = BitTensor(Shape([Run(ctx, "a")]), "float32", x, Storage("input:x"), "x")
+            q = lookup_fn(it, qual)
+            return it, lambda: (it.call(q, [fmt, xt], {}), xt, fmt)
+
+        def post(p: PathResult, i: int) -> Any:
+            ctx = p.ctx
+            x = fp32("x")
+            xb = z3.fpToIEEEBV(x)
+            wit: Dict[str, Any] = {"x_bits": xb}
+            if group == "spec_lemmas":
+                _sr_spec_lemmas(ctx, tag, E, M, s)
+                return wit
+            if p.outcome != "return":
+                ctx.oblige(f"{tag}:no_exception", False, exc=str(p.exc))
+                return wit
+            r, xt, fmt = p.value
+            calls = ctx.__dict__.get("randint_calls", [])
+            ok_t = isinstance(r, BitTensor) and r.dtype == "float32" and not r.garbled
+            if group == "core":
+                ctx.oblige(f"{tag}:srbits_resolved", fmt.attrs.get("srbits") == s, got=str(fmt.attrs.get("srbits")))
+                ctx.oblige(f"{tag}:one_random_draw_per_call", len(calls) == 1, n=len(calls))
+                if len(calls) == 1:
+                    cl = calls[0]
+                    ctx.oblige(f"{tag}:independent_draw_per_element(size_is_input_shape)", isinstance(cl["size"], Shape) and cl["size"].eq(ctx, xt.shape) is True)
+                    ctx.oblige(f"{tag}:draw_is_uniform_on_[0,2^srbits)", cl["low"] == 0 and cl["high"] == 2**s and cl["dtype"] == "int32", got=f"[{cl['low']},{cl['high']}) {cl['dtype']}")
+                ctx.oblige(f"{tag}:dtype_and_shape_preserved", ok_t and r.shape.eq(ctx, xt.shape) is True)
+                frame_obligations(ctx, f"{tag}:argument_not_modified")
+            if not ok_t or len(calls) != 1:
+                return wit
+            R = calls[0]["R"]
+            wit["R"] = R
+            code = r.elem
+            cb = z3.fpToIEEEBV(code)
+            wit["code_bits"] = cb
+            cx = spec_clamp(x, c["max"])
+            cxb = z3.fpToIEEEBV(cx)
+            opts = dict(timeout_ms=900000, bit_precise=True)
+            if group == "core":
+                ctx.oblige(f"{tag}:representable", repr_pred(E, M, cb), **opts)
+                ctx.oblige(f"{tag}:representable_input_never_moved", z3.Implies(repr_pred(E, M, xb), cb == xb), **opts)
+                ctx.oblige(f"{tag}:sign_preserved", z3.Extract(31, 31, cb) == z3.Extract(31, 31, xb), **opts)
+            elif group == "neighbour":
+                zb = z3.BitVec("z_bits", 32)
+                wit["z_bits"] = zb
+                Ic, Ix, Iz = signed_scaled(cb), signed_scaled(cxb), signed_scaled(zb)
+                between = z3.Or(z3.And(Ix < Iz, Iz < Ic), z3.And(Ic < Iz, Iz < Ix))
+                ctx.oblige(f"{tag}:is_one_of_the_two_neighbours", z3.Not(z3.And(repr_pred(E, M, zb), between)), **opts)
+            elif group in ("threshold_normal", "threshold_subnormal"):
+                mask = z3.BitVecVal((1 << D) - 1, 32)
+                sgn = xb & z3.BitVecVal(0x80000000, 32)
+                mag_b = cxb & z3.BitVecVal(0x7FFFFFFF, 32)
+                R64 = z3.ZeroExt(32, R)
+                two_s = z3.BitVecVal(1 << s, 64)
+                if group == "threshold_normal":
+                    # |cx| >= 2^emin: the scaling is exact; in pattern space lo = pattern with the D
+                    # discarded bits cleared, hi = lo + 2^D, d = discarded bits
+                    normal = z3.UGE(scaled_int(cxb), int_of_fraction(c["min_normal"]))
+                    d = mag_b & mask
+                    lo_b = mag_b & ~mask
+                    away = z3.UGE(R64 + _rnd_threshold(d, D, s), two_s)
+                    expect = z3.If(away, lo_b + z3.BitVecVal(1 << D, 32), lo_b) | sgn
+                    ctx.oblige(f"{tag}:rounds_away_iff_R>=2^s-rnd(d/2^(D-s))[normal range]", z3.Implies(normal, cb == expect), **opts)
+                    wit["d"] = d
+                else:
+                    # |cx| < 2^emin: q = RNE(|cx| / 2^k) is a float32 subnormal pattern m_q
+                    sub = z3.ULT(scaled_int(cxb), int_of_fraction(c["min_normal"]))
+                    I = scaled_int(cxb)
+                    if k > 0:
+                        q0 = z3.LShR(I, z3.BitVecVal(k, W))
+                        rem = I & z3.BitVecVal((1 << k) - 1, W)
+                        half = z3.BitVecVal(1 << (k - 1), W)
+                        up = z3.Or(z3.UGT(rem, half), z3.And(rem == half, z3.Extract(0, 0, q0) == 1))
+                        mq = q0 + z3.If(up, z3.BitVecVal(1, W), z3.BitVecVal(0, W))
+                    else:
+                        mq = I
+                    maskW = z3.BitVecVal((1 << D) - 1, W)
+                    dq = mq & maskW
+                    d32 = z3.Extract(31, 0, dq)
+                    away = z3.UGE(R64 + _rnd_threshold(d32, D, s), two_s)
+                    grid = (mq & ~maskW) + z3.If(away, z3.BitVecVal(1 << D, W), z3.BitVecVal(0, W))
+                    expect_I = grid << z3.BitVecVal(k, W)
+                    ctx.oblige(f"{tag}:rounds_away_iff_R>=2^s-rnd(d/2^(D-s))[subnormal range, d from the RNE-scaled value]", z3.Implies(sub, z3.And(scaled_int(cb) == expect_I, z3.Extract(31, 31, cb) == z3.Extract(31, 31, xb))), **opts)
+                    # the rounded scaled value is within half a float32 ulp of the exact one: position error <= 2^-(D+1)
+                    if k > 0:
+                        err = _abs_diff(mq << z3.BitVecVal(k, W), I)
+                        ctx.oblige(f"{tag}:scaled_position_error_at_most_2^-(D+1)_of_spacing[subnormal range]", z3.Implies(sub, z3.ULE(err, z3.BitVecVal(1 << (k - 1), W))), **opts)
+            return wit
+
+        return run_config(qual, {"E": E, "M": M, "srbits": s, "rounding": "stochastic", "group": group}, build, post)
+
+    return run
+
+
+def _sr_spec_lemmas(ctx: Ctx, tag: str, E: int, M: int, s: int) -> None:
+    """Pure facts about the value set and about counting (no repo code involved): they turn
+    the threshold form into the probability statement of the property."""
+    D = 23 - M
+    c = fmt_consts(E, M)
+    opts = dict(timeout_ms=900000, bit_precise=True)
+    _sr_count_lemmas(ctx, tag, D, s)
+    if s != D:
+        return  # the value-set lemmas do not depend on srbits: proved once, with the default srbits
+    yb = z3.BitVec("y_bits", 32)
+    zb = z3.BitVec("z_bits", 32)
+    mag_b = yb & z3.BitVecVal(0x7FFFFFFF, 32)
+    mask = z3.BitVecVal((1 << D) - 1, 32)
+    finite = z3.Extract(30, 23, yb) != 255
+    inrange = z3.And(finite, z3.ULE(scaled_int(yb), int_of_fraction(c["max"])), z3.UGE(scaled_int(yb), int_of_fraction(c["min_normal"])))
+    lo_b = mag_b & ~mask
+    hi_b = lo_b + z3.BitVecVal(1 << D, 32)
+    d = mag_b & mask
+    Ilo, Ihi, Iy, Iz = scaled_int(lo_b), scaled_int(hi_b), scaled_int(mag_b), scaled_int(zb & z3.BitVecVal(0x7FFFFFFF, 32))
+    hi_ok = z3.ULE(Ihi, int_of_fraction(c["max"]))
+    ctx.oblige(f"{tag}:spec:lo_is_representable[normal range]", z3.Implies(inrange, repr_pred(E, M, lo_b)), **opts)
+    ctx.oblige(f"{tag}:spec:hi_is_representable_or_beyond_max[normal range]", z3.Implies(z3.And(inrange, hi_ok), repr_pred(E, M, hi_b)), **opts)
+    ctx.oblige(f"{tag}:spec:lo<=x<hi[normal range]", z3.Implies(inrange, z3.And(z3.ULE(Ilo, Iy), z3.ULT(Iy, Ihi))), **opts)
+    ctx.oblige(f"{tag}:spec:nothing_representable_strictly_between_lo_and_hi[normal range]", z3.Implies(z3.And(inrange, repr_pred(E, M, zb)), z3.Not(z3.And(z3.ULT(Ilo, Iz), z3.ULT(Iz, Ihi)))), **opts)
+    # fractional position of x between lo and hi is d / 2^D:  x - lo == d * u  and  hi - lo == 2^D * u
+    # with u = 2^(e-1) the float32 ulp (scaled) of the binade of x
+    e8 = z3.Extract(30, 23, mag_b)
+    sh = z3.ZeroExt(W - 8, e8) - 1
+    ctx.oblige(f"{tag}:spec:x_minus_lo_is_d_ulps[normal range]", z3.Implies(inrange, Iy - Ilo == z3.ZeroExt(W - 32, d) << sh), **opts)
+    ctx.oblige(f"{tag}:spec:hi_minus_lo_is_2^D_ulps[normal range]", z3.Implies(inrange, Ihi - Ilo == z3.BitVecVal(1 << D, W) << sh), **opts)
+
+
+def _sr_count_lemmas(ctx: Ctx, tag: str, D: int, s: int) -> None:
+    # counting: #{R in [0,2^s) : R >= 2^s - t} == t for 0 <= t <= 2^s, t = rnd(d/2^(D-s)); |t/2^s - d/2^D| <= 2^-(s+1)
+    di = z3.Int("d")
+    sb = D - s
+    t = di if sb == 0 else (di + 2 ** (sb - 1)) / (2**sb)
+    rng = z3.And(di >= 0, di < 2**D)
+    ob1 = z3.Implies(rng, z3.And(t >= 0, t <= 2**s))
+    # 2^(D) * t - 2^s * d within 2^(D-1)  <=>  |t/2^s - d/2^D| <= 2^-(s+1)
+    ob2 = z3.Implies(rng, z3.And(2**D * t - 2**s * di <= 2 ** (D - 1), 2**s * di - 2**D * t <= 2 ** (D - 1)))
+    ctx.lemma(f"{tag}:spec:count_of_draws_rounding_away_is_rnd(d/2^(D-s))_in_[0,2^s]", [], ob1)
+    ctx.lemma(f"{tag}:spec:probability_within_2^-(s+1)_of_fractional_position", [], ob2)
+    if sb == 0:
+        ctx.lemma(f"{tag}:spec:probability_exact_when_all_discarded_bits_are_used", [], z3.Implies(rng, t == di))
+
+
+for _E, _M, _s in SR_ALL:
+    _tier = "quick" if (_E, _M, _s) in SR_QUICK else "thorough"
+    for _g in ("core", "neighbour", "threshold_normal", "threshold_subnormal", "spec_lemmas"):
+        register(Job(f"c14:quantise[E{_E}M{_M},sr={_s},{_g}]", ["C14"], FM + "FPFormat.quantise", {"E": _E, "M": _M, "srbits": _s, "group": _g}, _sr_job(_E, _M, _s, _g), tier=_tier))
